@@ -63,3 +63,92 @@ package ice
 //@   ensures[C09,C15] err == nil ==> footerVal != nil && fresh(footerVal)
 //@
 //@ guardedby[C09] Segment.fieldFSTs m
+//@
+//@ // ---------------------------------------------------------------------------
+//@ // Segment validity (type invariant): established by load and initSegmentBase,
+//@ // assumed wherever a *Segment is received.
+//@ typeinv Segment self.footer != nil && self.data != nil && self.fieldFSTs != nil
+//@ globalinv emptyDictionary != nil && emptyPostingsList != nil && emptyPostingsIterator != nil && emptyDictionaryIterator != nil
+//@ typeinv Segment len(self.dictLocs) == len(self.fieldsInv)
+//@ typeinv Segment forallstr(k, self.fieldsMap[k] <= len(self.fieldsInv))
+//@
+//@ spec is1Hit(v int) bool = (v / 4611686018427387904) % 4 == 2
+//@
+//@ func fSTValDecode1Hit
+//@   safety[C01,C08] wrap conv
+//@   ensures[C01,C02,C08,C10,C13] docNum == v % 2147483648 && normBits == (v / 2147483648) % 2147483648
+//@
+//@ func under32Bits
+//@   ensures[C02] result0 == (x <= 2147483647)
+//@
+//@ func (*Segment).dictionary
+//@   safety[C08,C18,C19] nil idx slice map
+//@   requires[C08,C18,C19] s != nil
+//@   ensures[C08,C18] err == nil && s.fieldsMap[field] == 0 ==> rv == nil
+//@   ensures[C08,C18] err == nil && s.fieldsMap[field] > 0 ==> rv != nil && rv.sb == s && rv.fieldID == s.fieldsMap[field] - 1
+//@   ensures[C08,C18,C19] err != nil ==> rv == nil
+//@   ensures[C08] err == nil && rv != nil && s.dictLocs[rv.fieldID] == 0 ==> rv.fst == nil && rv.fstReader == nil
+//@
+//@ func (*Segment).Dictionary
+//@   safety[C08] nil
+//@   requires[C08] s != nil
+//@   ensures[C08] result1 == nil ==> result0 != nil
+//@
+//@ func (*Dictionary).postingsListInit
+//@   safety[C08,C13,C18] nil
+//@   requires[C08,C13,C18] d != nil
+//@   ensures[C08,C13,C18] result0 != nil && result0 != emptyPostingsList
+//@   ensures[C13] result0.sb == d.sb && result0.except == except && result0.postingsOffset == 0 && result0.freqOffset == 0 && result0.locOffset == 0
+//@   ensures[C13] result0.docNum1Hit == 0 && result0.normBits1Hit == 0 && result0.chunkSize == 0
+//@   ensures[C13] result0.postings != nil ==> bset(result0.postings) == emptyset()
+//@   ensures[C13] rv != nil && rv != emptyPostingsList ==> result0 == rv
+//@
+//@ func (*PostingsList).init1Hit
+//@   safety[C08] nil wrap conv
+//@   requires[C08,C13] p != nil
+//@   modifies p.docNum1Hit, p.normBits1Hit
+//@   ensures[C08,C13] result0 == nil && p.docNum1Hit == fstVal % 2147483648 && p.normBits1Hit == (fstVal / 2147483648) % 2147483648
+//@
+//@ // The view of a postings list after read() depends only on (postingsOffset, d),
+//@ // never on what the reused object held before.
+//@ func (*PostingsList).read
+//@   safety[C08,C13] nil
+//@   requires[C08,C13] p != nil && d != nil && d.sb != nil
+//@   ensures[C08,C13] result0 == nil ==> p.postingsOffset == postingsOffset
+//@   ensures[C08,C13] result0 == nil && is1Hit(postingsOffset) ==> p.docNum1Hit == postingsOffset % 2147483648 && p.normBits1Hit == (postingsOffset / 2147483648) % 2147483648
+//@   ensures[C08,C13] @general_clears_1hit result0 == nil && !is1Hit(postingsOffset) ==> p.normBits1Hit == 0 && p.docNum1Hit == 0
+//@   ensures[C08,C13] result0 == nil && !is1Hit(postingsOffset) ==> p.postings != nil
+//@   ensures[C01,C05,C08] result0 == nil && !is1Hit(postingsOffset) ==> p.chunkSize == chunkSizeV2(d.sb.footer.chunkMode, card(bset(p.postings)), d.sb.footer.numDocs)
+//@
+//@ func (*Dictionary).postingsListFromOffset
+//@   safety[C08,C13,C18] nil
+//@   requires[C08,C13,C18] d != nil && d.sb != nil
+//@   ensures[C08,C13,C18] result1 == nil ==> result0 != nil
+//@   ensures[C08,C13] result1 == nil && !is1Hit(postingsOffset) ==> result0.normBits1Hit == 0
+//@
+//@ func (*Dictionary).postingsList
+//@   safety[C08,C13,C18] nil
+//@   requires[C18] d != nil
+//@   requires[C08,C13,C18] d.fstReader != nil ==> d.sb != nil
+//@   ensures[C08,C18] result1 == nil ==> result0 != nil
+//@
+//@ func (*PostingsList).OrInto
+//@   safety[C18] nil
+//@   requires[C18] p != nil && receiver != nil
+//@   modifies bset(receiver), brep(receiver)
+//@   ensures[C18] p.normBits1Hit != 0 ==> bset(receiver) == store(old(bset(receiver)), p.docNum1Hit, true)
+//@   ensures[C18] p.normBits1Hit == 0 && p.postings != nil ==> bset(receiver) == setunion(old(bset(receiver)), old(bset(p.postings)))
+//@   ensures[C18] p.normBits1Hit == 0 && p.postings == nil ==> bset(receiver) == old(bset(receiver))
+//@
+//@ func (*PostingsList).Count
+//@   safety[C05,C08] nil
+//@   requires[C05,C08] p != nil
+//@   ensures[C05,C08] p.normBits1Hit != 0 ==> result0 == 1 - ite(p.except != nil && select(bset(p.except), p.docNum1Hit), 1, 0)
+//@   ensures[C05,C08] p.normBits1Hit == 0 && p.postings != nil && p.except == nil ==> result0 == card(bset(p.postings))
+//@   ensures[C05,C08] p.normBits1Hit == 0 && p.postings != nil && p.except != nil ==> result0 == card(setdiff(bset(p.postings), bset(p.except)))
+//@   ensures[C05,C08] p.normBits1Hit == 0 && p.postings == nil ==> result0 == 0
+//@
+//@ func (*Segment).DocsMatchingTerms
+//@   safety[C18] nil idx
+//@   requires[C18] s != nil
+//@   ensures[C18] result1 == nil ==> result0 != nil
